@@ -31,7 +31,8 @@ Presents == {"rand", "all", "first", "last", "prefix", "suffix", "stride"}
 BigPresents == {"dense_sparse", "sparse_dense", "edges"}
 Densities == {1, 64, 500, 999}
 
-Sizes == {<<1>>, <<5>>, <<64>>, <<65, 63>>, <<513, 1>>, <<512, 512>>, <<1000, 30, 7>>, <<300, 300, 300>>}
+Sizes == {<<1>>, <<5>>, <<DenseMiniBlockRows>>, <<DenseMiniBlockRows + 1, DenseMiniBlockRows - 1>>, <<BlockwiseLinearRows + 1, 1>>,
+          <<BlockwiseLinearRows, BlockwiseLinearRows>>, <<BlockwiseLinearRows - 1>>, <<1000, 30, 7>>, <<300, 300, 300>>}
 BigSizes == {<<70000>>, <<66000, 5000>>}
 Merges ==
   {[order |-> "none", keep |-> 1000, perm |-> "identity"], [order |-> "stack", keep |-> 1000, perm |-> "identity"]}
@@ -49,6 +50,16 @@ GInit ==
   /\ \A s \in Sizes : \A m \in Merges : (Len(s) = 1 /\ m.order = "stack") \/ PrintT(<<"CASE", ToJson([what |-> "merge", sizes |-> s, merge |-> m])>>)
   /\ \A s \in BigSizes : \A m \in {x \in Merges : x.perm \in {"identity", "random"} /\ x.keep # 30} :
        PrintT(<<"CASE", ToJson([what |-> "bigmerge", sizes |-> s, merge |-> m])>>)
+  \* boundary values of the sparse / dense switch of the optional index: exactly n rows with a value inside
+  \* one block (the first, or the second of a longer table), for n around the threshold; and merges whose
+  \* inputs hold a and n - a such rows, so that the merged block holds exactly n
+  /\ \A n \in Around(DenseBlockThreshold) : \A blk \in {0, 1} :
+       PrintT(<<"CASE", ToJson([what |-> "thr", count |-> n, block |-> blk,
+                                 nrows |-> IF blk = 0 THEN 20000 ELSE OptionalBlockRows + 8000,
+                                 variant |-> OptionalBlockVariant(n)])>>)
+  /\ \A n \in Around(DenseBlockThreshold) : \A m \in {x \in Merges : x.keep = 1000 /\ x.order # "none" /\ x.perm \in {"identity", "random"}} :
+       PrintT(<<"CASE", ToJson([what |-> "thrmerge", counts |-> <<2000, n - 2000>>, sizes |-> <<20000, 20000>>, merge |-> m,
+                                 variants |-> <<OptionalBlockVariant(2000), OptionalBlockVariant(n - 2000), OptionalBlockVariant(n)>>])>>)
 GNext == done' = TRUE /\ UNCHANGED cvars
 GSpec == GInit /\ [][GNext]_<<done, cvars>>
 =============================================================================
